@@ -25,7 +25,7 @@ RULE = ("one evaluation = one execution of a CLI task with one fault plan (fault
         "actually fired (process died / error raised at that point).  One 'run' = one workload = task x generated "
         "inputs x options x pre-state (clean, stale complete output, stale temp file, both).")
 STATE_MEASURE = "distinct (task, prestate, fault kind, label class, outcome class) tuples"
-PROBES = ["kill_between_last_write_and_rename", "kill_after_rename", "stale_output_survived_crash",
+PROBES = ["failed_task_followed_by_unrelated_task_in_process", "kill_between_last_write_and_rename", "kill_after_rename", "stale_output_survived_crash",
           "stale_temp_present_at_start", "task_raised_on_injected_error", "restart_after_crash_succeeded",
           "restart_after_crash_failed", "multi_output_partial_rename", "crash_restart_sequence", "task_refuses_prestate", "restart_judged",
           "partial_leftover_at_output_path", "partial_leftover_untouched_before_start",
@@ -236,7 +236,7 @@ class Workload:
         return out
 
 
-def _grandchild(wl, planmap, report_path, clock_start):
+def _grandchild(wl, planmap, report_path, clock_start, follow=False):
     """fork; in the grandchild run the task under the fault seam; returns (exit status, report)."""
     ctx = wl.ctx
     pid = os.fork()
@@ -261,6 +261,18 @@ def _grandchild(wl, planmap, report_path, clock_start):
                 rep["injected"] = isinstance(e, faultfs.InjectedIOError) or "injected fault" in str(e)
                 code = 1
             seam.enabled = False
+            if follow and code == 1:
+                # the same process (a GUI, a script that handles several files) goes on with another, unrelated task that
+                # writes somewhere else and succeeds
+                try:
+                    from dclab import cli
+                    src = wl.work / wl.main_input
+                    if src.suffix == ".rtdc" and src.exists():
+                        (wl.work / "other").mkdir(exist_ok=True)
+                        cli.compress(path_in=src, path_out=wl.work / "other" / "unrelated.rtdc")
+                        rep["followed"] = True
+                except BaseException as e2:  # noqa
+                    rep["followed"] = f"raised {type(e2).__name__}: {str(e2)[:200]}"
             rep["n"] = seam.n
             rep["labels"] = seam.labels
             rep["fired"] = seam.fired
@@ -377,6 +389,9 @@ def select_plans(labels, tier, r, task=None):
         plans.append([{"at": k, "kind": r.choice(["err_persist", "err_persist_w", "err_burst2", "err_burst2", "err_burst3", "err_burst5"])}])
     for _ in range(2):
         plans.append([{"at": r.randrange(n), "kind": "kill_before"}, {"at": r.randrange(n), "kind": r.choice(KINDS)}])
+    # a failed run followed, in the same process, by an unrelated task that succeeds (what the failed one left must stay what it is)
+    for _ in range(max(3, cap // 12)):
+        plans.append([{"at": r.randrange(n), "kind": r.choice(["err_before", "err_after", "err_before", "intr_before"]), "follow": True}])
     # a failed or killed run followed by a fault-free restart of the same task (stale temporary files of the first run)
     for _ in range(max(3, cap // 12)):
         plans.append([{"at": r.randrange(n), "kind": r.choice(["err_before", "err_after", "err_before", "kill_before"])},
@@ -481,8 +496,10 @@ def run(trace, ctx):
         crashed_before = False
         for step_i, f in enumerate(seq):
             k, kind = int(f["at"]), f["kind"]
-            st, rep = _grandchild(wl, ({k: kind} if kind != "none" else {}), report, clock_start)
+            st, rep = _grandchild(wl, ({k: kind} if kind != "none" else {}), report, clock_start, follow=bool(f.get("follow")))
             ctx.count("evaluations")
+            if rep and rep.get("followed") is True:
+                ctx.probe("failed_task_followed_by_unrelated_task_in_process")
             lab = (labels[k] if 0 <= k < len(labels) else "(beyond end)") if kind != "none" else "(fault-free restart)"
             if kind == "none":
                 ctx.probe("restart_judged")
@@ -547,6 +564,8 @@ def run(trace, ctx):
                 if name in allowed_inputs or name in outputs:
                     continue
                 if name.endswith(".rtdc~"):
+                    continue
+                if f.get("follow") and name.startswith("other"):
                     continue
                 ctx.violation("C10.extra_file",
                               f"{task}: unexpected file '{name}' after {kind} at point {k} ({lab})",
